@@ -21,6 +21,8 @@ type Obl struct {
 	OK        bool   `json:"ok"`
 	Detail    string `json:"detail,omitempty"`
 	Variant   string `json:"variant,omitempty"`
+	// KnownVia: the obligation is shared from another property's check and is an open known finding recorded there.
+	KnownVia string `json:"known_via,omitempty"`
 }
 
 func (o Obl) Key() string { return o.Rule + "|" + o.Construct }
@@ -68,6 +70,15 @@ func (r *Run) Check(rule, construct string, pos token.Pos, ok bool, detail strin
 		variant = r.Prog.Variant.Name
 	}
 	r.add(Obl{Rule: rule, Construct: construct, Pos: ps, OK: ok, Detail: detail, Variant: variant})
+}
+
+// Share re-files an obligation of another property's check under this run. rule is "<P>.shared/<Q.rule>".
+func (r *Run) Share(rule, construct, pos string, ok bool, detail, knownVia string) {
+	variant := ""
+	if r.Prog != nil && r.Prog.Variant.Name != DefaultVariant.Name {
+		variant = r.Prog.Variant.Name
+	}
+	r.add(Obl{Rule: rule, Construct: construct, Pos: pos, OK: ok, Detail: detail, Variant: variant, KnownVia: knownVia})
 }
 
 // CheckAt records an obligation whose position is already rendered (obligations re-filed from a shared sub-run).
@@ -182,6 +193,11 @@ func (r *Run) Finish(replayKey string) int {
 		}
 		if o.OK {
 			discharged++
+			continue
+		}
+		if o.KnownVia != "" {
+			knownHit++
+			fmt.Printf("KNOWN-FINDING: property=%s %s %s: %s\n", r.Prop, o.Rule, o.Construct, o.KnownVia)
 			continue
 		}
 		if k, ok := open[o.Key()]; ok {
@@ -336,4 +352,24 @@ func (r *Run) writeEvidence(total, discharged, knownHit, violated int) error {
 		return err
 	}
 	return os.WriteFile(filepath.Join(dir, r.Prop+".json"), b, 0o644)
+}
+
+// AdoptFrom copies the obligations, counts, rule texts and notes of another run of the same property.
+func (r *Run) AdoptFrom(o *Run) {
+	for _, ob := range o.Obls {
+		r.add(ob)
+	}
+	for k, v := range o.Analysed {
+		r.Analysed[k] = v
+	}
+	for k, v := range o.RuleTexts {
+		r.RuleTexts[k] = v
+	}
+	r.Assumptions = append(r.Assumptions, o.Assumptions...)
+	r.NotDecided = append(r.NotDecided, o.NotDecided...)
+	r.Broken = append(r.Broken, o.Broken...)
+	for k, v := range o.Extra {
+		r.Extra[k] = v
+	}
+	r.Level = o.Level
 }
